@@ -6,8 +6,16 @@ pub struct Prop {
     pub parts: fn() -> Vec<Box<dyn DynPart>>,
 }
 
+pub mod c10;
+pub mod c12;
 pub mod c13;
+pub mod c14;
+pub mod c16;
 
 pub const ALL: &[Prop] = &[
+    Prop { id: "C10", run: c10::run, parts: c10::parts },
+    Prop { id: "C12", run: c12::run, parts: c12::parts },
     Prop { id: "C13", run: c13::run, parts: c13::parts },
+    Prop { id: "C14", run: c14::run, parts: c14::parts },
+    Prop { id: "C16", run: c16::run, parts: c16::parts },
 ];
